@@ -6,4 +6,6 @@ export CARGO_NET_OFFLINE=true
 (cd pmlint && cargo build --release --offline 2>&1 | tail -2)
 # warm the dependency caches of the analysed configurations (members always go through the driver again)
 python3 bin/engine.py /repo >/dev/null
+# build the controls crate once (its dependencies are cached; the crate itself goes through the driver on every check)
+python3 bin/controls.py >/dev/null
 echo "setup ok"
